@@ -218,7 +218,7 @@ def scorer_cases(draw, tier):
     squared_error_family = "Gaussian" not in str(spec)
     if integral and squared_error_family and draw(st.integers(0, 3)) == 0:
         # large counts: still exactly representable in both dtypes (sums of squares stay below 2^63 and 2^53 x 1e3)
-        X = [[v * 1e7 for v in row] for row in X]
+        X = [[(v + 10) * 2e7 for v in row] for row in X]  # positive counts of order 1e8: sums of ~20 rows exceed 2^31.5
     k = {"CUSUM": 3, "ChangeScore": 3, "LocalAnomalyScore": 4}.get(spec["cls"], 2)
     cuts = []
     for _ in range(draw(st.integers(1, 5))):
